@@ -28,15 +28,16 @@ ASSUMPTIONS = [
 ]
 REQUIRED = {"all": ["regime:uncharged", "regime:one_charge_type", "regime:no_neutrals", "regime:mixed_lt18_neutrals",
                     "regime:mixed_ge18_neutrals", "boundary_n0_17", "boundary_n0_18", "tie_block_lengths",
-                    "permutant_validated", "permutant_after_value_same_object"]}
+                    "permutant_validated", "permutant_after_value_same_object", "segregated_presentations"]}
 NMAX = {"quick": 24, "thorough": 40}
 NRANDOM = {"quick": 120, "thorough": 1200}
-EXTRA = [(3, 3, 17), (3, 3, 18), (3, 3, 19), (1, 1, 18), (5, 2, 18), (2, 5, 30), (4, 4, 24), (10, 10, 17),
+EXTRA_THOROUGH = [(1000, 136, 0)]
+EXTRA = [(1, 10, 25), (10, 1, 25), (2, 12, 30), (1, 6, 18), (3, 3, 17), (3, 3, 18), (3, 3, 19), (1, 1, 18), (5, 2, 18), (2, 5, 30), (4, 4, 24), (10, 10, 17),
          (10, 12, 18), (0, 7, 18), (7, 0, 18), (20, 0, 20), (0, 25, 25), (25, 25, 0), (30, 20, 0), (6, 6, 40)]
 
 
 def cases(tier, seed):
-    for c in EXTRA:
+    for c in EXTRA + (EXTRA_THOROUGH if tier == "thorough" else []):
         yield {"c": list(c)}
     for N in range(1, NMAX[tier] + 1):
         for c in gen.compositions(N):
@@ -78,6 +79,19 @@ def judge(case, rep, S):
     for _ in range(4):
         rng.shuffle(base)
         presentations.append(gen.spell(rng, base))
+    if p and n and z:
+        # presentations that are themselves strongly segregated (the input must not become a candidate of its own)
+        k = rng.choice([0, 1, 2, 3, 4, 5])
+        k = min(k, z)
+        seg = [1] * p + [0] * k + [-1] * n + [0] * (z - k)
+        if rng.random() < 0.5:
+            seg = seg[::-1]
+        presentations[1] = gen.spell(rng, seg)
+        rep.cnt("segregated_presentations")
+    elif p + n and z:
+        c = [1] * p + [-1] * n
+        seg = c[: len(c) // 2] + [0] * z + c[len(c) // 2:]
+        presentations[1] = gen.spell(rng, seg)
     # (a) composition-only, fresh object per presentation
     values = []
     first_obj = None
